@@ -3,6 +3,8 @@ import GormModel.Model.Upsert
 import GormModel.Model.UpsertClause
 import GormModel.Model.UpsertKeys
 import GormModel.Model.UpsertScan
+import GormModel.Model.UpsertForms
+import GormModel.Gen.BackfillFacts
 open Lean
 namespace Gorm.Drv
 open Gorm.Upsert
@@ -317,6 +319,46 @@ def runScan (o : Json) : Option Json := do
     | none => Json.num (-1 : Int))).toArray)
   some (Json.mkObj [("skip", Json.bool (UpsertScan.skipMode UpsertScan.genScanCfg f)), ("src", Json.arr src.toArray)])
 
+/-! round 5: `c16.forms` — Model.UpsertForms.build under the regenerated resolution sites; `c16.backfill5` — backfillG -/
+
+def parseKV (j : Json) : Option (Nat × Nat) := do
+  let a ← jArr? j
+  some (← jNat? (arg a 0), ← jNat? (arg a 1))
+
+def parseFArg (j : Json) : Option UpsertForms.Arg := do
+  let a ← jArr? j
+  let k ← jStr? (arg a 0)
+  let kvs ← (← jArr? (arg a 1)).toList.mapM parseKV
+  match k with
+  | "eqs" => some (.eqs kvs)
+  | "cols" => some (.cols kvs)
+  | "strct" => some (.strct kvs)
+  | _ => none
+
+def parseFArgs (j : Json) : Option (List UpsertForms.Arg) := do (← jArr? j).toList.mapM parseFArg
+
+def runForms (o : Json) : Option Json := do
+  let fs ← (← jArr? (fld o "fs")).toList.mapM (fun j => do
+    let kv ← parseKV j
+    some ({ go := kv.1, db := kv.2 } : UpsertForms.FField))
+  let c ← parseFArgs (fld o "conds")
+  let a ← parseFArgs (fld o "attrs")
+  let g ← parseFArgs (fld o "assigns")
+  some (natListJ (UpsertForms.build UpsertForms.genSites fs c a g))
+
+def runBackfill5 (args : Array Json) : Option Json := do
+  -- ["c16.backfill5", reversed, hasDefault, autoInc, intType, inc, keys, rowsAffected, lastId|null]
+  let rev ← jBool? (arg args 1)
+  let hd ← jBool? (arg args 2)
+  let auto ← jBool? (arg args 3)
+  let intT ← jBool? (arg args 4)
+  let inc ← jInt? (arg args 5)
+  let ks ← (← jArr? (arg args 6)).toList.mapM jInt?
+  let ra ← jInt? (arg args 7)
+  let lid := jInt? (arg args 8)
+  some (Json.arr ((UpsertForms.backfillG UpsertForms.genGuarded Gen.backfillGuardsKeyKind rev hd auto intT inc ks ⟨ra, lid⟩).map
+    (fun k => Json.num (JsonNumber.fromInt k))).toArray)
+
 end HC16
 
 open HC16 in
@@ -372,6 +414,12 @@ def handleC16 (op : String) (args : Array Json) : Option Json := do
     some (Json.mkObj [("oc", ocJ oc'), ("render", strListJ oc'.render), ("row", row)])
   | "c16.wide" => runWide (arg args 1)
   | "c16.scan" => runScan (arg args 1)
+  | "c16.forms" => runForms (arg args 1)
+  | "c16.backfill5" => runBackfill5 args
+  | "c16.genforms" =>
+    some (Json.arr #[Json.arr (UpsertForms.genLookUpField.map Json.bool).toArray,
+      Json.arr (UpsertForms.genSites.eqString.map Json.bool).toArray, Json.arr (UpsertForms.genSites.eqColumn.map Json.bool).toArray,
+      Json.arr (UpsertForms.genSites.structField.map Json.bool).toArray, Json.bool UpsertForms.genGuarded])
   | "c16.genscan" =>
     some (Json.arr #[strListJ UpsertScan.genScanCfg.skipWhen,
       Json.bool (UpsertScan.genLookupCfg "DB.FirstOrInit").ordered, Json.bool (UpsertScan.genLookupCfg "DB.FirstOrCreate").ordered])
